@@ -81,7 +81,7 @@ def read_nifti_image(path: PathUri) -> Tuple[Tensor, Grid]:
         realdim = ndim
         while realdim > 3 and dim[realdim] == 1:
             realdim -= 1
-    data = np.reshape(data, data.shape[:realdim] + data.shape[5:])
+    data = np.reshape(data, data.shape[:realdim] + data.shape[4:])
     # Reverse order of axes
     data = np.transpose(data, axes=tuple(reversed(range(data.ndim))))
     # Add leading channel dimension
